@@ -37,13 +37,13 @@ E == Trace[l]
 Snap == [disks |-> disks, headN |-> headN, chain |-> chain, loc |-> loc, snapIdx |-> snapIdx,
          holeQ |-> holeQ, size |-> size, open |-> open, mode |-> mode, rebuilding |-> rebuilding,
          dirty |-> dirty, rev |-> rev, checkpoint |-> checkpoint, punch |-> punch, preload |-> preload,
-         cleaner |-> cleaner, ref |-> ref, usnap |-> usnap]
+         cleaner |-> cleaner, lm |-> lm, stale |-> stale, ref |-> ref, usnap |-> usnap]
 Restore(p) ==
     /\ disks' = p.disks /\ headN' = p.headN /\ chain' = p.chain /\ loc' = p.loc
     /\ snapIdx' = p.snapIdx /\ holeQ' = p.holeQ /\ size' = p.size /\ open' = p.open
     /\ mode' = p.mode /\ rebuilding' = p.rebuilding /\ dirty' = p.dirty /\ rev' = p.rev
     /\ checkpoint' = p.checkpoint /\ punch' = p.punch /\ preload' = p.preload
-    /\ cleaner' = p.cleaner /\ ref' = p.ref /\ usnap' = p.usnap
+    /\ cleaner' = p.cleaner /\ lm' = p.lm /\ stale' = p.stale /\ ref' = p.ref /\ usnap' = p.usnap
 
 InitVals(nb, pu) ==
     [disks |-> [n \in {"h0"} |-> [parent |-> "", user |-> FALSE, removed |-> FALSE,
@@ -57,6 +57,7 @@ Reset(nb, pu) ==
     /\ size' = nb /\ open' = TRUE /\ mode' = "RW" /\ rebuilding' = FALSE /\ dirty' = FALSE
     /\ rev' = 1 /\ checkpoint' = "" /\ preload' = TRUE /\ punch' = pu
     /\ cleaner' = [st |-> "idle", name |-> ""]
+    /\ lm' = LmIdle /\ stale' = FALSE
     /\ res' = "ok" /\ out' = <<>> /\ op' = [name |-> "Init"]
     /\ ref' = ZeroImage /\ usnap' = << >>
 
@@ -64,6 +65,8 @@ TInit ==
     /\ Init0(Trace[1].a.nb, Trace[1].a.punch)
     /\ l = 1 /\ phase = "cmp" /\ skipping = FALSE /\ failed = <<>> /\ ntraces = 1
     /\ pre = Snap
+
+PadData(d) == [b \in Blocks |-> IF b + 1 <= Len(d) THEN d[b + 1] ELSE Hole]
 
 \* ---- apply -----------------------------------------------------------------
 SpecStep(e) ==
@@ -78,11 +81,11 @@ SpecStep(e) ==
                  /\ res' = IF open THEN "ok" ELSE "refused"
                  /\ out' = <<>>
                  /\ UNCHANGED <<disks, headN, chain, loc, snapIdx, holeQ, size, open, mode,
-                                rebuilding, dirty, rev, checkpoint, punch, preload, cleaner,
+                                rebuilding, dirty, rev, checkpoint, punch, preload, lm, stale, cleaner,
                                 ref, usnap>>
       [] e.ev = "BurstEnd"      -> /\ Called("BurstEnd", << >>) /\ res' = "ok" /\ out' = <<>>
                                    /\ UNCHANGED <<disks, headN, chain, loc, snapIdx, holeQ, size, open, mode,
-                                                  rebuilding, dirty, rev, checkpoint, punch, preload, cleaner,
+                                                  rebuilding, dirty, rev, checkpoint, punch, preload, lm, stale, cleaner,
                                                   ref, usnap>>
       [] e.ev = "Coalesce"      -> Coalesce(e.a.name)
       [] e.ev = "RemoveDisk"    -> RemoveDisk(e.a.name)
@@ -97,12 +100,19 @@ SpecStep(e) ==
       [] e.ev = "SetRebuilding" -> SetRebuilding(e.a.r)
       [] e.ev = "SetCheckpoint" -> SetCheckpoint(e.a.name)
       [] e.ev = "SetRev"        -> SetRev(e.a.c)
+      [] e.ev = "Unmap"         -> Unmap(e.a.s0, e.a.n)
+      [] e.ev = "SyncFile"      -> SyncFile(e.a.name, [parent |-> e.a.parent, user |-> e.a.user,
+                                                        removed |-> e.a.removed, data |-> PadData(e.a.data)])
+      [] e.ev = "LunMapScan"    -> LunMapScan
+      [] e.ev = "LunMapMerge"   -> LunMapMerge
+      [] e.ev = "UpdateLUNMap"  -> UpdateLUNMap
+      [] e.ev = "ReplaceDisk"   -> ReplaceDisk(e.a.target, e.a.source)
       [] OTHER                  -> FALSE
 
 Fail(rules) ==
     failed' = Append(failed,
         [t |-> E.t, seq |-> E.seq, ev |-> E.ev, a |-> E.a, rules |-> rules,
-         logged |-> [res |-> E.res, err |-> E.err, chain |-> E.st.chain, mode |-> E.st.mode],
+         logged |-> [res |-> E.res, err |-> E.err, chain |-> E.st.chain, mode |-> E.st.mode, cand |-> E.cand],
          spec |-> [res |-> res, open |-> open, mode |-> mode, chain |-> chain, size |-> size,
                    rev |-> rev, checkpoint |-> checkpoint, head |-> HeadF,
                    users |-> DOMAIN usnap, op |-> op]])
@@ -153,7 +163,26 @@ Adopted(files) ==
                        /\ Harmless(chain, disks, usnap, n, b)
                     THEN Hole ELSE disks[n].data[b]]]]
 
+\* Unmap punches the range out of every member above the newest user snapshot AS THE ENGINE
+\* COUNTS IT: its index of that snapshot is exact after a load but may be too high in a process
+\* that took the snapshots itself or removed members (flags kept one slot to the right, stale
+\* index) -- never too low.  So a member the specification unmaps may keep its block: that is
+\* adopted (the range is unspecified afterwards anyway); a member the specification protects
+\* must not change.
+KeptByUnmap(d, files) ==
+    IF E.ev # "Unmap" THEN d
+    ELSE [n \in DOMAIN d |->
+            IF n \notin DOMAIN files \/ n \notin DOMAIN pre.disks THEN d[n]
+            ELSE [d[n] EXCEPT !.data =
+                    [b \in Blocks |->
+                        IF b < size /\ ObsData(files[n], b) # d[n].data[b]
+                           /\ ObsData(files[n], b) = pre.disks[n].data[b]
+                        THEN pre.disks[n].data[b] ELSE d[n].data[b]]]]
+
 ExpectedRead(s0, n) == [k \in 1..n |-> ref[BlkOf(s0 + k - 1)][IdxIn(s0 + k - 1)]]
+\* sectors the reference leaves unspecified (after an Unmap) match anything
+ReadAgrees(o, s0, n) == /\ Len(o) = n
+                        /\ \A k \in 1..n : ExpectedRead(s0, n)[k] = Wild \/ o[k] = ExpectedRead(s0, n)[k]
 
 Rules(e, d2) ==
     LET st    == e.st
@@ -167,7 +196,7 @@ Rules(e, d2) ==
     \cup (IF ~st.dir.metaok THEN {"VolumeMeta"} ELSE {})
     \cup (IF st.dir.head # HeadF THEN {"Head"} ELSE {})
     \cup (IF open /\ st.open /\ st.chain # chain THEN {"Chain"} ELSE {})
-    \cup (IF open /\ st.open /\
+    \cup (IF open /\ st.open /\ ~stale /\
              (\/ DOMAIN st.eng # Range(chain)
               \/ \E n \in DOMAIN st.eng \cap DOMAIN disks :
                     \/ st.eng[n].parent # disks[n].parent
@@ -184,19 +213,20 @@ Rules(e, d2) ==
     \cup (IF st.dir.rev # rev \/ (st.open /\ st.revcache # rev) THEN {"Rev"} ELSE {})
     \cup (IF st.dir.cp # checkpoint THEN {"Checkpoint"} ELSE {})
     \cup (IF st.dir.rebuilding # rebuilding THEN {"Rebuilding"} ELSE {})
-    \cup (IF e.ev = "Read" /\ res = "ok" /\ e.res = "ok" /\ e.out # ExpectedRead(e.a.s0, e.a.n)
+    \cup (IF e.ev = "Read" /\ res = "ok" /\ e.res = "ok" /\ ~ReadAgrees(e.out, e.a.s0, e.a.n) /\ ~stale
           THEN {"ReadData"} ELSE {})
     \cup (IF e.ev = "CleanerPick" /\ open /\ e.res = "ok" /\ Range(e.cand) # Candidates(checkpoint)
           THEN {"Candidates"} ELSE {})
     \* concurrency observations
     \cup (IF e.ev = "BurstEnd" /\ e.x.backwards > 0 THEN {"RevBackwards"} ELSE {})
     \cup (IF e.ev = "Open" /\ "oks" \in DOMAIN e.x /\ e.x.oks > 1 THEN {"OpenTwice"} ELSE {})
+    \cup (IF e.ev = "Open" /\ "oldlive" \in DOMAIN e.x /\ e.x.oldlive THEN {"OpenTwice"} ELSE {})
     \* the properties themselves, evaluated on the adopted directory
-    \cup (IF open /\ \E b \in SizeBlocks : ImageAt(chain, d2, Len(chain))[b] # ref[b]
+    \cup (IF open /\ ~stale /\ \E b \in SizeBlocks : ~Agree(ImageAt(chain, d2, Len(chain))[b], ref[b])
           THEN {"LiveIsRef"} ELSE {})
-    \cup (IF open /\ \E u \in DOMAIN usnap :
+    \cup (IF open /\ ~stale /\ \E u \in DOMAIN usnap :
                 \/ IdxOf(chain, u) = 0
-                \/ \E b \in SizeBlocks : ImageAt(chain, d2, IdxOf(chain, u))[b] # usnap[u][b]
+                \/ \E b \in SizeBlocks : ~Agree(ImageAt(chain, d2, IdxOf(chain, u))[b], usnap[u][b])
           THEN {"UserSnapImmutable"} ELSE {})
 
 \* A management call the specification would have accepted but the implementation
@@ -204,7 +234,7 @@ Rules(e, d2) ==
 \* effect at all -- the specification takes its step back and the record is compared
 \* with the state before it (phase "cmp2", without the Result rule).
 Refusable == {"Snapshot", "PrepareRemove", "RemoveDisk", "Revert", "Resize", "SetRebuilding",
-              "SetCheckpoint", "SetRev", "Open", "Reload"}
+              "SetCheckpoint", "SetRev", "Open", "Reload", "ReplaceDisk"}
 
 Compare ==
     /\ phase \in {"cmp", "cmp2"} /\ l <= Len(Trace)
@@ -212,7 +242,7 @@ Compare ==
        THEN /\ Restore(pre)
             /\ phase' = "cmp2"
             /\ UNCHANGED <<l, failed, skipping, ntraces, pre, res, out, op>>
-       ELSE /\ LET d2 == Adopted(E.st.dir.files)
+       ELSE /\ LET d2 == KeptByUnmap(Adopted(E.st.dir.files), E.st.dir.files)
                    rs == Rules(E, d2) \ (IF phase = "cmp2" THEN {"Result"} ELSE {})
                IN /\ disks' = d2
                   /\ holeQ' = {}
@@ -220,7 +250,7 @@ Compare ==
                      ELSE Fail(rs) /\ skipping' = TRUE
             /\ l' = l + 1 /\ phase' = "apply"
             /\ UNCHANGED <<headN, chain, loc, snapIdx, size, open, mode, rebuilding, dirty, rev,
-                           checkpoint, punch, preload, cleaner, res, out, op, ref, usnap, ntraces, pre>>
+                           checkpoint, punch, preload, lm, stale, cleaner, res, out, op, ref, usnap, ntraces, pre>>
 
 TNext == Apply \/ Compare
 TSpec == TInit /\ [][TNext]_allvars
@@ -233,5 +263,5 @@ Finish == Done => JsonSerialize(ResultFile,
 
 \* design-level sanity of the specification's own block map on every visited
 \* state (a failure here is a defect of the specification, not of the code)
-SpecSane == skipping \/ phase = "cmp" \/ (ReadBack /\ LocSound /\ ChainWF)
+SpecSane == skipping \/ phase = "cmp" \/ (ReadBack /\ LocSound /\ ChainWF /\ PunchSafe)
 =============================================================================
